@@ -11,9 +11,15 @@ whatever was evaluated before" (the mechanism of seeded/C11_f; props/C11_seq.py 
           directly over XalanSourceTree nodes) answer the same histories; every difference is reported.
   oracle  the property on the library's answers without the Coq model: a Python list of the payloads held, every answer must be
           the XPath conversion (vlib/xpref number/string conversions) of the payload held at that moment.
-A failing history is shrunk (ops dropped while the failure stays) and written as the replay (#XOCACHE lines)."""
-import os, struct
-from vlib import core, xpref
+A failing history is shrunk (ops dropped while the failure stays) and written as the replay (#XOCACHE lines).
+
+Result tree fragments (XSLT/XResultTreeFrag, the fourth kind of the machine) cannot be made through XObjectFactoryDefault: their
+library side goes through WHOLE TRANSFORMATIONS (vlib/xsltrun.py): local variables holding fragments (single text child, element
+/ comment / text mixes, empty) in nested scopes, each asked repeatedly through number / string / string-length / boolean routes
+inside one template; the machine gets the same history (F ops, r ops at the end of each scope) and both are compared after
+rendering the answers as the stylesheet shows them (#XOFRAG lines in a replay)."""
+import json, os, struct, xml.etree.ElementTree as ET
+from vlib import core, xpref, xsltrun
 
 # string-values of the <p> elements.  The first ones are the interesting first nodes: empty, not a number, the sentinel
 VALUES = ["", "abc", " ", "123456789", "123456789.0", " 123456789 ", "20", "10", "2.5", "-3", "0", "-0", " 7 ", "007", "1e3", "NaN",
@@ -51,6 +57,8 @@ def expected(vals, ops):
         c, r = t[0], t[1:]
         if c == "N":
             held.append(("N", [vals[int(i)] for i in r.split(",")] if r else []))
+        elif c == "F":
+            held.append(("F", [(it[0], vals[int(it[1:])]) for it in r.split(",")] if r else []))
         elif c == "S":
             held.append(("S", vals[int(r)]))
         elif c == "D":
@@ -63,7 +71,8 @@ def expected(vals, ops):
                 del held[i]
                 continue
             kind, p = held[i]
-            s = (p[0] if p else "") if kind == "N" else p if kind == "S" else xpref.num_to_str(p)
+            s = ((p[0] if p else "") if kind == "N" else p if kind == "S" else
+                 "".join(v for k_, v in p if k_ != "c") if kind == "F" else xpref.num_to_str(p))
             if c == "n":
                 out.append((k, show_num(p if kind == "D" else xpref.str_to_num(s))))
             elif c in "stbcef":
@@ -71,7 +80,7 @@ def expected(vals, ops):
             elif c == "l":
                 out.append((k, "l:%d" % units(s)))
             elif c == "z":
-                b = bool(p) if kind in ("N", "S") else (p == p and p != 0)
+                b = bool(p) if kind in ("N", "S") else True if kind == "F" else (p == p and p != 0)
                 out.append((k, "z:1" if b else "z:0"))
     return out
 
@@ -151,6 +160,176 @@ def boundary_histories(r):
         for i in range(n):
             ops += [r.choice(["N3", "N5", "N6", "N"]), r.choice("nnl") + str(i)]
         out.append((vals, ops))
+    return out
+
+
+# ---- result tree fragments: whole transformations ---------------------------------------------------------------------------
+XSL = 'xmlns:xsl="http://www.w3.org/1999/XSL/Transform"'
+ROUTES = {"n": ["number($%s)", "$%s * 1", "$%s - 0", "0 + $%s"],
+          "s": ["string($%s)", "$%s", "concat($%s,'')", "VO"],
+          "l": ["string-length($%s)"],
+          "z": ["boolean($%s)", "not(not($%s))"]}
+
+
+def xesc(v):
+    return v.replace("&", "&amp;").replace("<", "&lt;")
+
+
+def frag_content(r, vals):
+    """(items of the F op, stylesheet text of the variable's content)"""
+    shape = r.randrange(8)
+    texts = [i for i, v in enumerate(vals) if v != ""]
+    plain = [i for i, v in enumerate(vals) if "-" not in v]
+    if shape == 0:
+        return [], '<xsl:if test="false()">x</xsl:if>'
+    if shape in (1, 2, 3) and texts:
+        items = ["t%d" % r.choice(texts)]                                      # the single text child
+    else:
+        items = []
+        for _ in range(r.randrange(1, 4)):
+            k = r.choice("tecee")
+            if k == "t" and (not texts or (items and items[-1][0] == "t")):
+                k = "e"                                                         # adjacent text nodes would be one node
+            if k == "c" and not plain:
+                k = "e"
+            items.append(k + str(r.choice(texts) if k == "t" else r.choice(plain) if k == "c" else r.randrange(len(vals))))
+    out = []
+    for it in items:
+        v = vals[int(it[1:])]
+        if it[0] == "t":
+            out.append("<xsl:text>%s</xsl:text>" % xesc(v))
+        elif it[0] == "e":
+            out.append("<e><xsl:text>%s</xsl:text></e>" % xesc(v) if v else "<e/>")
+        else:
+            out.append("<xsl:comment>%s</xsl:comment>" % xesc(v))
+    return items, "".join(out)
+
+
+def gen_frag_case(r, vals, n_asks):
+    """-> (ops, [(query, route)], stylesheet)"""
+    ops, routes, held = [], [], []
+    counter = [0]
+
+    def ask(body):
+        name = r.choice(held) if r.random() < 0.6 else held[-1]
+        q = r.choice("nnnsslz")
+        route = r.choice(ROUTES[q])
+        ops.append(q + str(held.index(name)))
+        k = len(routes)
+        routes.append((q, route))
+        if route == "VO":
+            body.append('<l i="%d"><xsl:value-of select="$%s"/></l>' % (k, name))
+        else:
+            body.append('<l i="%d" v="{%s}"/>' % (k, route % name))
+
+    def block(depth):
+        body, mine = [], []
+        for _ in range(r.randrange(1, 4)):
+            name = "v%d" % counter[0]
+            counter[0] += 1
+            items, content = frag_content(r, vals)
+            ops.append("F" + ",".join(items))
+            held.append(name)
+            mine.append(name)
+            body.append('<xsl:variable name="%s">%s</xsl:variable>' % (name, content))
+            for _ in range(r.randrange(0, 4)):
+                if len(routes) < n_asks:
+                    ask(body)
+        for _ in range(r.randrange(0, 3)):
+            if depth < 3 and len(routes) < n_asks:
+                body.append('<xsl:if test="true()">%s</xsl:if>' % block(depth + 1))
+            for _ in range(r.randrange(0, 4)):
+                if len(routes) < n_asks:
+                    ask(body)
+        for name in reversed(mine):                                             # the scope ends: the fragments go back
+            ops.append("r%d" % held.index(name))
+            held.remove(name)
+        return "".join(body)
+    parts = []
+    while len(routes) < n_asks:
+        parts.append('<xsl:if test="true()">%s</xsl:if>' % block(0))
+    sheet = ('<xsl:stylesheet version="1.0" %s><xsl:output method="xml" omit-xml-declaration="yes"/>'
+             '<xsl:template match="/"><out>%s</out></xsl:template></xsl:stylesheet>' % (XSL, "".join(parts)))
+    return ops, routes, sheet
+
+
+def render(tok):
+    """an answer of the machine / of the Python specification as the stylesheet shows it"""
+    if tok.startswith("n:"):
+        return xpref.num_to_str(float("nan") if tok == "n:nan" else struct.unpack(">d", struct.pack(">Q", int(tok[2:], 16)))[0])
+    if tok.startswith("s:"):
+        us = [int(h, 16) for h in tok[4:].split(",")] if len(tok) > 4 else []
+        return b"".join(struct.pack("<H", u) for u in us).decode("utf-16-le")
+    if tok.startswith("l:"):
+        return tok[2:]
+    return "true" if tok == "z:1" else "false"
+
+
+def shown_number(t):
+    """the number a stylesheet shows, as a comparable value (how many digits number-to-string prints is property C18's subject)"""
+    if t is None:
+        return None
+    if t in ("NaN", "Infinity", "-Infinity"):
+        return t
+    try:
+        return float(t) + 0.0 if float(t) != 0 else 0.0
+    except ValueError:
+        return "not a number: %r" % t
+
+
+def comparable(vals_shown, routes):
+    return [shown_number(v) if q == "n" else v for v, (q, _) in zip(vals_shown, routes)] + list(vals_shown[len(routes):])
+
+
+def observed(out):
+    """{i: text} of the <l> elements of a transformation result, or None"""
+    if out is None or out[0] != "ok":
+        return None
+    try:
+        root = ET.fromstring(out[1].decode("utf-8"))
+    except Exception:
+        return None
+    return {int(l.get("i")): (l.get("v") if l.get("v") is not None else (l.text or "")) for l in root.findall("l")}
+
+
+def run_frag_cases(ctx, fcases, model):
+    """fcases: [(tag, vals, ops, routes, sheet)] -> (correspondence differences, oracle failures)"""
+    res = xsltrun.run([{"id": tag, "sheet": sheet, "source": "<d/>"} for tag, vals, ops, routes, sheet in fcases])
+    rm = {}
+    if model:
+        rcm, rm, rawm = core.run_lines_parallel(model, [line_of(tag, vals, ops) for tag, vals, ops, routes, sheet in fcases], sep="|")
+    corr, bad = [], []
+    for tag, vals, ops, routes, sheet in fcases:
+        got = observed(res.get(tag))
+        ctx.count("cache:fragment-transformation")
+        if got is None:
+            bad.append((tag, vals, ops, routes, sheet, "the transformation did not succeed: %r" % (res.get(tag) or ("",))[:1]))
+            continue
+        lib = [got.get(i) for i in range(len(routes))]
+        ctx.cov["evaluations"] += len(lib)
+        lib = comparable(lib, routes)
+        exp = comparable([render(e) for _, e in expected(vals, ops)], routes)
+        if model:
+            ctx.cov["traces_validated_against_impl"] += 1
+            mod = comparable([render(t) for t in rm.get(tag, "").split(" ") if t], routes)
+            if mod != lib:
+                k = next((i for i in range(len(routes)) if i >= len(mod) or mod[i] != lib[i]), 0)
+                corr.append({"case": line_of(tag, vals, ops)[:300], "ask": k, "route": routes[k][1],
+                             "impl": lib[k], "model": mod[k] if k < len(mod) else "<none>"})
+        if exp != lib:
+            k = next(i for i in range(len(routes)) if i >= len(exp) or exp[i] != lib[i])
+            bad.append((tag, vals, ops, routes, sheet, "ask %d (%s of the fragment, op %s): the stylesheet shows %r, the conversion of the fragment is %r" % (
+                k, routes[k][1] if routes[k][1] != "VO" else "xsl:value-of", [o for o in ops if o[0] in ASKS][k], lib[k], exp[k] if k < len(exp) else None)))
+    return corr, bad
+
+
+def gen_frag_all(ctx, r, n, n_asks, prefix):
+    out = []
+    for q in range(n):
+        # no surrogate pairs here: the string-length() FUNCTION counts characters whatever XResultTreeFrag::stringLength() answers
+        vals = [v.replace("\U0001d4b3", "\u00e9") for v in gen_vals(r)]
+        ops, routes, sheet = gen_frag_case(r, vals, n_asks)
+        out.append(("%sf%d" % (prefix, q), vals, ops, routes, sheet))
     return out
 
 
@@ -238,6 +417,18 @@ def corpus_cases(ctx):
     return cases
 
 
+def corpus_frag_cases(ctx):
+    out = []
+    cdir = os.path.join(core.VERIF, "corpus", "C11cache")
+    for fn in sorted(os.listdir(cdir)) if os.path.isdir(cdir) else []:
+        for k, l in enumerate(open(os.path.join(cdir, fn), encoding="utf-8")):
+            if l.startswith("#XOFRAG "):
+                d = json.loads(l[8:])
+                out.append(("cf%s_%d" % (fn.split(".")[0][:16], k), d["vals"], d["ops"], [tuple(x) for x in d["routes"]], d["sheet"]))
+                ctx.count("cache:corpus")
+    return out
+
+
 def parse_line(l):
     tag, vf, of = l.split("|")
     vals = []
@@ -290,11 +481,18 @@ def run_part(ctx):
     wide = ctx.thorough
     cases = corpus_cases(ctx) + gen_all(ctx, r, 2500 if wide else 320, 70 if wide else 45, "h")
     corr, bad = run_cases(ctx, cases, impl, model)
+    fcases = corpus_frag_cases(ctx) + gen_frag_all(ctx, r, 600 if wide else 80, 50 if wide else 36, "h")
+    fcorr, fbad = run_frag_cases(ctx, fcases, model)
     if (corr or not proved or not model or len(ctx.broken) > broken_before) and not bad and not ctx.thorough:
         ctx.escalated = True
         c2, b2 = run_cases(ctx, gen_all(ctx, r, 3000, 70, "w"), impl, model)
         corr += c2
         bad += b2
+    if (fcorr or not proved or not model or len(ctx.broken) > broken_before) and not fbad and not bad and not ctx.thorough:
+        ctx.escalated = True
+        c2, b2 = run_frag_cases(ctx, gen_frag_all(ctx, r, 600, 50, "w"), model)
+        fcorr += c2
+        fbad += b2
     distinct = {(tuple(v), tuple(o)) for t, v, o in cases if any(x[0] == "r" for x in o)}
     ctx.cov["distinct_nontrivial"] = ctx.cov.get("distinct_nontrivial", 0) + len(distinct)
     ctx.cov["samples"] = list(ctx.cov.get("samples", [])) + [line_of(*cases[-1])[:200]]
@@ -315,6 +513,21 @@ def run_part(ctx):
                                "the value it holds (a cached value of an earlier use?)\n"
                                "# replay: python3 check.py C11 --replay <this file>  (re-runs every #XOCACHE line), or feed the text after "
                                "#XOCACHE to .build/xocache_plain (protocol: head of harness/xocache.cpp)\n" + "\n".join(txt))
+    if fcorr:
+        ctx.broken.append("correspondence cache (fragments): %d transformations show other values than the extracted machine answers, e.g. %s" % (
+            len(fcorr), fcorr[0]))
+        ctx.notes["cache_fragment_correspondence_mismatches"] = fcorr[:10]
+    if fbad:
+        fbad.sort(key=lambda b: len(b[4]))
+        txt = []
+        for tag, vals, ops, routes, sheet, what in fbad[:6]:
+            txt.append("#XOFRAG " + json.dumps({"vals": vals, "ops": ops, "routes": routes, "sheet": sheet}))
+            txt.append("# %s\n# payload table: %r\n# history: %s\n# stylesheet (source <d/>):\n%s" % (what, vals, " ".join(ops), sheet))
+        ctx.violation("cache-fragment", "# C11: a variable holding a result tree fragment is observed with something that is not the XPath conversion "
+                                        "of the fragment\n# replay: python3 check.py C11 --replay <this file>  (re-runs every #XOFRAG line), or run the "
+                                        "stylesheet over <d/> and compare attribute v / the text of each <l>\n" + "\n".join(txt))
+    ctx.notes["cache_fragment_failures"] = len(fbad)
+    ctx.notes["cache_fragment_transformations"] = len(fcases)
     ctx.notes["cache_failures"] = len(bad)
     ctx.notes["cache_histories"] = len(cases)
 
@@ -323,6 +536,19 @@ def replay(ctx, path):
     core.build_lib("plain")
     impl, ok_h, hlog = core.build_harness("xocache", "plain")
     failed = 0
+    for k, l in enumerate(open(path, encoding="utf-8")):
+        if l.startswith("#XOFRAG "):
+            d = json.loads(l[8:])
+            got = observed(xsltrun.run([{"id": "r%d" % k, "sheet": d["sheet"], "source": "<d/>"}]).get("r%d" % k))
+            routes = [tuple(x) for x in d["routes"]]
+            exp = comparable([render(e) for _, e in expected(d["vals"], d["ops"])], routes)
+            lib = comparable([got.get(i) for i in range(len(exp))], routes) if got is not None else None
+            print("fragments, history %s" % " ".join(d["ops"]))
+            print("   stylesheet shows: %r" % (lib,))
+            print("   conversions:      %r" % (exp,))
+            if lib != exp:
+                print("   FAIL")
+                failed += 1
     for l in open(path, encoding="utf-8"):
         if not l.startswith("#XOCACHE "):
             continue
